@@ -6,6 +6,7 @@ package main
 
 import (
 	"encoding/base64"
+	"encoding/json"
 	"encoding/hex"
 	"fmt"
 	"sort"
@@ -16,11 +17,13 @@ import (
 	abci "github.com/cometbft/cometbft/abci/types"
 	codectypes "github.com/cosmos/cosmos-sdk/codec/types"
 	sdk "github.com/cosmos/cosmos-sdk/types"
+	"github.com/cosmos/cosmos-sdk/types/query"
 	"github.com/cosmos/cosmos-sdk/types/tx/signing"
 	authtypes "github.com/cosmos/cosmos-sdk/x/auth/types"
 	"github.com/cosmos/cosmos-sdk/x/authz"
 	banktypes "github.com/cosmos/cosmos-sdk/x/bank/types"
 	"github.com/medibloc/panacea-core/v2/app"
+	dbm "github.com/cometbft/cometbft-db"
 	"github.com/btcsuite/btcutil/base58"
 	cmtsecp "github.com/cometbft/cometbft/crypto/secp256k1"
 	aoltypes "github.com/medibloc/panacea-core/v2/x/aol/types"
@@ -69,6 +72,9 @@ type Exec struct {
 	mode     signing.SignMode
 	Docs     map[string]*didtypes.DIDDocument
 	seenK58  map[string]bool
+	genLine  []string            // the pending "# GENESIS" parameters; the chain is built lazily
+	genAol   *aoltypes.GenesisState
+	Custom   map[string]json.RawMessage
 }
 
 func NewExec(out *Out) *Exec {
@@ -223,10 +229,21 @@ func (x *Exec) Run(lines []string) {
 			continue // regenerated below from the real code
 		case "#":
 			if len(f) >= 4 && f[1] == "GENESIS" {
-				x.genesis(f)
+				x.genLine = f
+				x.declGenesis(f)
 			}
 			x.Out.Decl("%s", l)
 			continue
+		case "G":
+			x.genesisEntry(f)
+			x.Out.Decl("%s", l)
+			continue
+		}
+		if x.C == nil && x.genLine != nil {
+			switch f[0] {
+			case "BLOCK", "Q", "DUMP", "PAGE", "EXPORT":
+				x.genesis(x.genLine)
+			}
 		}
 		x.history = append(x.history, l)
 		switch f[0] {
@@ -318,6 +335,9 @@ func (x *Exec) Run(lines []string) {
 		case "Q":
 			x.Out.Cmd(l, x.query(f))
 			x.Stats["query:"+f[1]]++
+		case "PAGE":
+			x.history = x.history[:len(x.history)-1]
+			x.pageWalk(f)
 		case "DUMP":
 			x.Out.Cmd(l, x.dump(f[1]))
 		default:
@@ -425,18 +445,54 @@ func docStr(d *didtypes.DIDDocument) string {
 		rels(d.KeyAgreements), rels(d.CapabilityInvocations), rels(d.CapabilityDelegations), svcs}, "|")
 }
 
+// genesisEntry: "G aol.owner|topic|writer|record <key string> <fields...>" seeds the aol genesis maps
+func (x *Exec) genesisEntry(f []string) {
+	if x.genAol == nil {
+		x.genAol = aoltypes.DefaultGenesis()
+	}
+	ks := s(f[2])
+	for _, part := range strings.Split(ks, aoltypes.GenesisKeySeparator) {
+		x.declAddrString(part)
+	}
+	u := func(t string) uint64 { n, _ := strconv.ParseUint(t, 10, 64); return n }
+	i := func(t string) int64 { n, _ := strconv.ParseInt(t, 10, 64); return n }
+	switch f[1] {
+	case "aol.owner":
+		x.genAol.Owners[ks] = &aoltypes.Owner{TotalTopics: u(f[3])}
+	case "aol.topic":
+		x.genAol.Topics[ks] = &aoltypes.Topic{Description: s(f[3]), TotalRecords: u(f[4]), TotalWriters: u(f[5])}
+	case "aol.writer":
+		x.genAol.Writers[ks] = &aoltypes.Writer{Moniker: s(f[3]), Description: s(f[4]), NanoTimestamp: i(f[5])}
+	case "aol.record":
+		x.declAddrString(s(f[6]))
+		x.genAol.Records[ks] = &aoltypes.Record{Key: untok(f[3]), Value: untok(f[4]), NanoTimestamp: i(f[5]), WriterAddress: s(f[6])}
+	}
+}
+
 func (x *Exec) genesis(f []string) {
 	n, _ := strconv.Atoi(f[2])
-	bal, ok := sdk.NewIntFromString(f[3])
-	if !ok {
-		panic("bad balance")
-	}
+	bal, _ := sdk.NewIntFromString(f[3])
 	x.NAccts = n
 	var bals []GenBalance
 	for i := 0; i < n; i++ {
 		bals = append(bals, GenBalance{mkAcct(i).Addr, sdk.NewCoins(sdk.NewCoin(feeDenom, bal))})
 	}
-	x.C = NewChain(n, bals, nil, time.Unix(1700000000, 0).UTC())
+	custom := map[string]json.RawMessage{}
+	for k, v := range x.Custom {
+		custom[k] = v
+	}
+	if x.genAol != nil {
+		custom["aol"] = app.MakeEncodingConfig().Codec.MustMarshalJSON(x.genAol)
+	}
+	x.C = NewChain(n, bals, custom, time.Unix(1700000000, 0).UTC())
+}
+
+func (x *Exec) declGenesis(f []string) {
+	n, _ := strconv.Atoi(f[2])
+	bal, ok := sdk.NewIntFromString(f[3])
+	if !ok {
+		panic("bad balance")
+	}
 	x.Out.Decl("ENV fee_collector %s", tok(authtypes.NewModuleAddress(authtypes.FeeCollectorName)))
 	var blocked []string
 	for a := range app.BlockedAddresses() {
@@ -453,8 +509,127 @@ func (x *Exec) genesis(f []string) {
 	}
 }
 
+func pageReq(a []string) *query.PageRequest {
+	if len(a) == 1 && a[0] == "nopage" {
+		return nil
+	}
+	var key []byte
+	if a[0] != "nil" {
+		key = untok(a[0])
+	}
+	off, _ := strconv.ParseUint(a[1], 10, 64)
+	lim, _ := strconv.ParseUint(a[2], 10, 64)
+	return &query.PageRequest{Key: key, Offset: off, Limit: lim, CountTotal: a[3] == "1", Reverse: a[4] == "1"}
+}
+
+func pageResToks(items []string, pr *query.PageResponse) string {
+	l := "L"
+	for _, it := range items {
+		l += "," + toks(it)
+	}
+	next, total := "nil", "0"
+	if pr != nil {
+		if len(pr.NextKey) > 0 {
+			next = hex.EncodeToString(pr.NextKey)
+		}
+		total = strconv.FormatUint(pr.Total, 10)
+	}
+	return joinSp("Q", "ok", l, next, total)
+}
+
+// pageWalk: "PAGE aol.Topics <owner> <limit> <ct> <rev> key|offset" or
+// "PAGE aol.Writers <owner> <topic> <limit> <ct> <rev> key|offset": pages through a listing the way a client
+// does, emitting one Q line per request (so that the model answers the same requests), and checks that the
+// union of the pages is exactly the store's content for that owner/topic, each item once, in order.
+func (x *Exec) pageWalk(f []string) {
+	kind := f[1]
+	var head []string
+	var rest []string
+	if kind == "aol.Topics" {
+		head, rest = f[2:3], f[3:]
+	} else {
+		head, rest = f[2:4], f[4:]
+	}
+	limit, ct, rev, style := rest[0], rest[1], rest[2], rest[3]
+	lim, _ := strconv.ParseUint(limit, 10, 64)
+	key, offset := "nil", uint64(0)
+	var got []string
+	for step := 0; step < 400; step++ {
+		var line string
+		if style == "key" {
+			line = joinSp(append(append([]string{"Q", kind}, head...), key, "0", limit, ct, rev)...)
+		} else {
+			line = joinSp(append(append([]string{"Q", kind}, head...), "nil", strconv.FormatUint(offset, 10), limit, ct, rev)...)
+		}
+		x.history = append(x.history, line)
+		ans := x.query(strings.Split(line, " "))
+		x.Out.Cmd(line, ans)
+		x.Stats["query:"+kind]++
+		af := strings.Split(ans, " ")
+		if af[1] != "ok" {
+			if ans == "Q panic" {
+				x.Flag("C17-query-panic", "paging through "+kind+" panicked")
+			}
+			return
+		}
+		items := strings.Split(af[2], ",")[1:]
+		got = append(got, items...)
+		if af[3] == "nil" || len(items) == 0 {
+			break
+		}
+		key = af[3]
+		offset += lim
+	}
+	// oracle: the store dump
+	var want []string
+	for _, kv := range x.C.DumpStore("aol") {
+		comps := splitCompkey(kv[0][1:])
+		o, err := sdk.AccAddressFromBech32(s(head[0]))
+		if err != nil {
+			return
+		}
+		if kind == "aol.Topics" && kv[0][0] == 1 && string(comps[0]) == string(o) {
+			want = append(want, toks(string(comps[1])))
+		}
+		if kind == "aol.Writers" && kv[0][0] == 2 && string(comps[0]) == string(o) && string(comps[1]) == s(head[1]) {
+			want = append(want, toks(sdk.AccAddress(comps[2]).String()))
+		}
+	}
+	if rev == "1" {
+		for i, j := 0, len(want)-1; i < j; i, j = i+1, j-1 {
+			want[i], want[j] = want[j], want[i]
+		}
+	}
+	if strings.Join(got, ",") != strings.Join(want, ",") {
+		x.Flag("C13-paging", fmt.Sprintf("paging %s (limit %s, reverse %s, %s style) returned %v, the store holds %v", kind, limit, rev, style, got, want))
+	}
+}
+
 func (x *Exec) query(f []string) string {
 	switch f[1] {
+	case "aol.Topics":
+		x.declAddrString(s(f[2]))
+		res := x.C.Query("/panacea.aol.v2.Query/Topics", &aoltypes.QueryTopicsRequest{OwnerAddress: s(f[2]), Pagination: pageReq(f[3:])}, 0)
+		if res.Code != 0 {
+			return queryErrClass(res)
+		}
+		var r aoltypes.QueryTopicsResponse
+		must(r.Unmarshal(res.Value))
+		return pageResToks(r.TopicNames, r.Pagination)
+	case "aol.Writers":
+		x.declAddrString(s(f[2]))
+		res := x.C.Query("/panacea.aol.v2.Query/Writers", &aoltypes.QueryWritersRequest{OwnerAddress: s(f[2]), TopicName: s(f[3]), Pagination: pageReq(f[4:])}, 0)
+		if res.Code != 0 {
+			return queryErrClass(res)
+		}
+		var r aoltypes.QueryWritersResponse
+		must(r.Unmarshal(res.Value))
+		for _, w := range r.WriterAddresses {
+			if a, err := sdk.AccAddressFromBech32(w); err == nil {
+				x.declBech(a)
+			}
+		}
+		return pageResToks(r.WriterAddresses, r.Pagination)
 	case "aol.Record":
 		off, err := strconv.ParseUint(f[4], 10, 64)
 		must(err)
@@ -549,5 +724,7 @@ func (x *Exec) dump(which string) string {
 }
 
 var _ = abci.CodeTypeOK
+
+func dbmMem() dbm.DB { return dbm.NewMemDB() }
 
 func base64Std(b []byte) string { return base64.StdEncoding.EncodeToString(b) }
